@@ -43,7 +43,7 @@ def plan(tier: str) -> dict:
     return {"shards": 4, "budget_s": 30} if tier == "quick" else {"shards": 16, "budget_s": 400}
 
 
-def check_stream(cfg: dict, stmts: list, ns: list):
+def check_stream(cfg: dict, stmts: list, ns: list, max_table: int | None = None):
     """-> (witness|None, refdec.Result|None)"""
     try:
         data = pj.serialize(cfg, stmts, ns)
@@ -53,7 +53,7 @@ def check_stream(cfg: dict, stmts: list, ns: list):
         frames = wire.dec_stream(data, cfg["delimited"])
     except wire.WireError as e:
         return {"clause": "wire-malformed", "summary": str(e), "bytes": data.hex()}, None
-    res = refdec.decode(frames, strict_graphs=True)
+    res = refdec.decode(frames, strict_graphs=True, max_table=max_table)
     if res.violation is not None:
         v = res.violation
         return {"clause": f"spec:{v.kind}", "summary": str(v), "bytes": data.hex()}, res
@@ -101,6 +101,7 @@ def check_groups(cfg: dict, groups: list, nss: list):
 def run_shard(ctx):
     i = 0
     checked = Counter()
+    oversized_preset_case(ctx, ctx.rng("oversized"))
     while not ctx.out_of_time():
         rng = ctx.rng(i)
         i += 1
@@ -209,7 +210,33 @@ def run_shard(ctx):
         ctx.observe(f"checked:{k}", v)
 
 
+def oversized_preset_case(ctx, rng):
+    """One stream per shard written with a name table LARGER than 4096 (the writer accepts such presets) and more
+    distinct names than 4096: every id must lie within the size the options row declares."""
+    size = rng.choice([4500, 5000])
+    n = size + 300
+    ns = "http://ex.org/big/"
+    stmts = [(("iri", f"{ns}s{k}"), ("iri", f"{ns}p{k % 7}"), ("iri", f"{ns}o{(k * 7) % n}")) for k in range(n // 2)]
+    cfg = {"integration": rng.choice(["generic", "rdflib"]), "physical": 1, "entry": "flat_to_file", "frame_size": 250,
+           "preset": (size, 16, 8), "delimited": True, "logical": 1, "generalized": False, "rdf_star": False, "ns": False,
+           "stream_name": ""}
+    w, res = check_stream(cfg, stmts, [], max_table=10 ** 6)      # (that READERS refuse such a header is C13's clause)
+    ctx.observe("oversized-preset-streams")
+    if w is not None and w["clause"] != "serializer-raised":
+        w.update({"cfg": cfg, "kind": "oversized-preset", "stmts": T.to_json(stmts[:5]), "ns": [],
+                  "note": "witness truncated; re-run ./check C03 with the same VERIF_SEED"})
+        ctx.violation(w)
+    elif res is not None:
+        ctx.observe("streams-decoded")
+        if res.counters["name-eviction"]:
+            ctx.observe("oversized-preset-streams-with-eviction")
+    ctx.case(("oversized-preset", size, cfg["integration"]), res is not None,
+             sample={"kind": "oversized-preset", "preset": list(cfg["preset"]), "statements": len(stmts)})
+
+
 def replay(w: dict):
+    if w.get("kind") == "oversized-preset":
+        return {"clause": w["clause"], "summary": "re-run ./check C03 with the same VERIF_SEED"}
     if w.get("kind") == "interrupted" and "cfg" not in w:
         return {"clause": w["clause"], "summary": "re-run ./check C03 with the same VERIF_SEED"}
     cfg = w["cfg"]
